@@ -326,3 +326,118 @@ class FinalizerSetPipeline(Contract):
 
     def frame_ok(self, I, inp, obj, name):
         return obj is inp["self"] and name == "_pipeline"
+
+
+@register
+class ExternalValuesCache(Contract):
+    """ExternalSourceBaseTransformation._get_values (file / HTTP / command placeholders): values are cached only AFTER they were fetched and
+    parsed; when the fetch or the parsing fails the error propagates and NOTHING is cached, so the next rule that uses the placeholder fails
+    the same way (it does not silently get an empty list); a filled cache is returned as it is"""
+    id = "C08.ExternalSourceBaseTransformation._get_values[cache]"
+    target = "sigma.processing.transformations.external:ExternalSourceBaseTransformation._get_values"
+    props = ("C08", "C15", "C17")
+    cases = ("ok", "ok-filtered", "fetch-fails", "parse-fails", "cached")
+
+    def setup(self, E):
+        from pyvc.interp import PyRaise
+        E.summaries["sigma.processing.transformations.external:ExternalSourceBaseTransformation._external_sources_allowed"] = lambda I, so, a, k: True
+
+    def args(self, I, case):
+        from pyvc.interp import PyRaise
+        idx = I.E.index
+        err = SObj(idx.lookup("sigma.exceptions:SigmaTransformationError"), {"args": ("cannot read",)}, lazy=True)
+        data = I.fresh("data", "str")
+        v1, v2 = I.fresh("value1", "str"), I.fresh("value2", "str")
+
+        def fetch(I2, a, k):
+            if case == "fetch-fails":
+                raise PyRaise(err)
+            return data
+
+        def parse(I2, a, k):
+            if case == "parse-fails":
+                raise PyRaise(err)
+            return [v1, v2]
+        keep1 = I.fresh("filter_keeps_value1", "bool")
+        flt = SObj("Pattern", {"search": NativeFn("search", lambda I2, a, k: SOpt(z3.Not(keep1.t), SObj("Match", {})) if a[0] is v1 else SObj("Match", {}))}) if case == "ok-filtered" else None
+        cached = [I.fresh("cached", "str")]
+        me = SObj(idx.lookup("sigma.processing.transformations.external:ExternalSourceBaseTransformation"),
+                  {"_values_cache": cached if case == "cached" else None, "_filter_pattern": flt, "_fetch_data": NativeFn("_fetch_data", fetch), "_parse_data": NativeFn("_parse_data", parse)}, lazy=True)
+        return {"self": me, "args": [], "v": (v1, v2), "keep1": keep1, "cached": cached, "case": case, "err": err}
+
+    def post(self, I, inp, r):
+        case, me = inp["case"], inp["self"]
+        c = I.ctx
+        c.require(case in ("ok", "ok-filtered", "cached"), "a failed fetch / parse does not return values")
+        r = I.force(r) if not isinstance(r, list) else r
+        if case == "cached":
+            c.require(r is inp["cached"] and me.fields["_values_cache"] is inp["cached"], "a filled cache is returned as it is")
+            return
+        v1, v2 = inp["v"]
+        if case == "ok":
+            c.require(isinstance(r, list) and len(r) == 2 and r[0] is v1 and r[1] is v2, "the parsed values")
+        else:
+            c.require(isinstance(r, list) and r[-1] is v2 and z3.If(inp["keep1"].t, z3.BoolVal(len(r) == 2 and r[0] is v1), z3.BoolVal(len(r) == 1)), "the parsed values the filter keeps, in order")
+        c.require(me.fields["_values_cache"] is r or (isinstance(me.fields["_values_cache"], list) and list(me.fields["_values_cache"]) == list(r)), "... which are cached")
+
+    def raises(self, I, inp, exc):
+        case, me = inp["case"], inp["self"]
+        I.ctx.require(case in ("fetch-fails", "parse-fails") and exc is inp["err"], f"the error of the fetch / parse propagates unchanged (got {exc_name(exc)})")
+        I.ctx.require(me.fields["_values_cache"] is None, "nothing is cached when the fetch or the parsing failed: the next use fails the same way", kind="FRAME")
+
+    def frame_ok(self, I, inp, obj, name):
+        return obj is inp["self"] and name == "_values_cache"
+
+
+@register
+class ConvertRuleLazyInit(Contract):
+    """Backend.convert_rule called directly: a backend that has no combined pipeline yet initialises it for the REQUESTED output format
+    (the output-format stage of that format, not of the default one); a backend that has one keeps it"""
+    id = "C08.Backend.convert_rule[lazy init]"
+    target = "sigma.conversion.base:Backend.convert_rule"
+    props = ("C08", "C14")
+    cases = ("never-initialised", "none", "initialised")
+
+    def setup(self, E):
+        E._c08b_init = []
+
+        def s_init(I, so, a, k):
+            E._c08b_init.append((list(a), dict(k)))
+            so.fields["last_processing_pipeline"] = so.ghost["fresh_pipe"]
+        E.summaries["sigma.conversion.base:Backend.init_processing_pipeline"] = s_init
+
+    def args(self, I, case):
+        del I.E._c08b_init[:]
+        idx = I.E.index
+        applied = []
+        mk = lambda tag: SObj("Pipeline", {"apply": NativeFn("apply", lambda I2, a, k: applied.append(tag)), "state": {}})
+        old, fresh = mk("old"), mk("fresh")
+        rule = SObj(idx.lookup("sigma.rule.rule:SigmaRule"), {"detection": SObj("Detections", {"parsed_condition": []}), "_backreferences": [], "_output": True,
+                                                              "set_conversion_result": NativeFn("scr", lambda I2, a, k: None), "set_conversion_states": NativeFn("scs", lambda I2, a, k: None), "source": None}, lazy=True)
+        f = {"collect_errors": False, "errors": [], "finalize_correlation_subqueries": True, "default_format": "default"}
+        if case == "none":
+            f["last_processing_pipeline"] = None
+        elif case == "initialised":
+            f["last_processing_pipeline"] = old
+        me = SObj(idx.lookup("sigma.conversion.base:Backend"), f, lazy=(case != "never-initialised"))
+        if case == "never-initialised":
+            me.ghost["closed"] = True          # the attribute does not exist yet: reading it is an AttributeError, hasattr() is False
+        me.ghost["fresh_pipe"] = fresh
+        fmt = I.fresh("output_format", "str")
+        return {"self": me, "args": [rule, fmt, None], "applied": applied, "fmt": fmt, "case": case}
+
+    def post(self, I, inp, r):
+        c, case, init = I.ctx, inp["case"], I.E._c08b_init
+        if case == "initialised":
+            c.require(init == [] and inp["applied"] == ["old"], "a backend that has a combined pipeline uses it")
+        else:
+            ok = len(init) == 1
+            c.require(ok, "the combined pipeline is initialised once")
+            if ok:
+                a, k = init[0]
+                got = a[0] if a else k.get("output_format")
+                c.require(got is inp["fmt"], "... for the output format this conversion was asked for")
+            c.require(inp["applied"] == ["fresh"], "the rule is processed by the pipeline that was just initialised")
+
+    def frame_ok(self, I, inp, obj, name):
+        return True
